@@ -152,6 +152,34 @@ func identicalRepinCase(c *fw.Ctx, idx int) {
 			return
 		}
 	}
+	if mode == "age" {
+		// burst: the entry is in the committed pinset; an unpin and the very same record
+		// again are accepted back to back (one batch). The last accepted operation is a pin.
+		if !steps[n-1].want {
+			cp := *p
+			if rep.cons.LogPin(ctx, &cp) != nil || !visible(true) {
+				c.Inconclusive("re-pin before the burst not visible")
+				return
+			}
+		}
+		u, q := *p, *p
+		e1 := rep.cons.LogUnpin(ctx, &u)
+		e2 := rep.cons.LogPin(ctx, &q)
+		if e1 == nil && e2 == nil {
+			time.Sleep(600 * time.Millisecond) // twelve batch ages
+			got, err := rep.content(ctx)
+			_, present := got[ci]
+			c.Eval("identical-repin/burst")
+			if err == nil && !present {
+				time.Sleep(time.Second)
+				got, _ = rep.content(ctx)
+				if _, present = got[ci]; !present {
+					c.Violation("C02/identical-repin/burst/last-accepted-pin-lost", "an entry of the committed pinset was unpinned and pinned again with the very same record in one batch: it is gone, the last accepted operation was the pin", nil)
+				}
+			}
+		}
+		return
+	}
 	// the hooks run asynchronously to the state change: allow them a moment
 	wantCalls := n
 	ok := waitUntil(5*time.Second, func() bool {
